@@ -122,6 +122,11 @@ CHECKS.update({
             "assumptions": E1_ASSUME + ["schedules are the operating system's: VERIF_SEED fixes the plans, not the interleavings; the race detector only reports access pairs that were executed",
                                         "a race report is a violation by itself; the report text is saved as the replay artefact next to the plan that produced it",
                                         "single-response invariants are those of C03-C05 that need no reference model"]},
+    "C09": {"steps": [REPLAYS, rapid("interop", "TestC09", 24, 700, qshards=8, tshards=14, shrinktime="25s", timeout={"quick": 900, "thorough": 3000})],
+            "assumptions": E1_ASSUME + ["writes are paced in real time and the client paces delivery in real time: a run lasts 4-8 s; 6 runs execute concurrently in every case",
+                                        "SegmentMinDuration >= 0.5 s (shorter segments make the muxer announce TARGETDURATION 0, which the library's own decoder rejects)",
+                                        "NTP passed to Write is exactly linear in media time, so that every PROGRAM-DATE-TIME anchor gives the same AbsoluteTime",
+                                        "how far a client gets depends on the machine; the oracle is prefix-closed (every delivered unit is checked, nothing is required to be delivered beyond the tracks)"]},
     "C16": e1("TestC16", 1000, 30000),
     "C18": e1("TestC18", 400, 8000),
     "C19": e1("TestC19", 800, 30000),
